@@ -258,7 +258,7 @@ def prepare_inputs(ctx, ju, bins, ref, rng, nvals, nrand, nan_stream=True):
             st["model_values" if kind == "model-value" else "nan_payload_values"] += 1
         else:
             st["model_enc_none"] += 1
-    rl = [f"rand1 {name} {rng.getrandbits(48)}" for tid, name, x in ju.tops for _ in range(nrand)]
+    rl = [f"randj {name} {rng.getrandbits(48)}" for tid, name, x in ju.tops for _ in range(nrand)]
     rm = [(tid, name) for tid, name, x in ju.tops for _ in range(nrand)]
     rout = run_lines_resilient(u.gen.exe, [], rl, timeout=600)
     for (tid, name), o in zip(rm, rout):
